@@ -1138,6 +1138,28 @@ fn backtraces(pid: u32) -> String {
     }
 }
 
+/// Deadlock classes known on the pinned tree (both: the handler allocates while the interrupted thread is inside malloc).
+/// Looks only at the frames the handler put on top of `cleanup_tempfiles_signal_safe` in the thread that runs it.
+fn classify_deadlock(bt: &str) -> &'static str {
+    for thread in bt.split("\nThread ") {
+        let Some(pos) = thread.find("cleanup_tempfiles_signal_safe") else { continue };
+        let above = &thread[..pos];
+        if above.contains("lock_exclusive_slow") && !above.contains("unlock_exclusive_slow") {
+            // the handler waits for a lock: not one of the known classes
+            return "deadlock-under-signals";
+        }
+        if above.contains("unlock_exclusive_slow") {
+            // releasing a shard another thread waits for enters parking_lot_core, which allocates its table on first use
+            return "deadlock-handler-unlock-slow-path-allocates";
+        }
+        if above.contains("_try_entry") && above.contains("reserve_rehash") {
+            // looking up an absent index with try_entry() reserves room for an insertion: the shard's table is re-allocated
+            return "deadlock-handler-try-entry-rehash-allocates";
+        }
+    }
+    "deadlock-under-signals"
+}
+
 fn excerpt(bt: &str) -> String {
     let keep: Vec<&str> = bt
         .lines()
@@ -1206,10 +1228,7 @@ fn run_storm(t: &mut Tape, c: &mut Case) {
                 let bt = backtraces(child.id());
                 let _ = child.kill();
                 let _ = child.wait();
-                // the one deadlock known on the pinned tree: the handler unlocks a registry shard another thread waits for,
-                // dashmap's slow unlock path enters parking_lot_core, which allocates, while the interrupted thread is inside malloc
-                let known = bt.contains("cleanup_tempfiles_signal_safe") && bt.contains("unlock_exclusive_slow");
-                let sig = if known { "deadlock-handler-unlock-slow-path-allocates" } else { "deadlock-under-signals" };
+                let sig = classify_deadlock(&bt);
                 c.fail_sig(
                     sig,
                     format!(
